@@ -11,8 +11,8 @@ CONSTANTS RETRIES, CAP, TTL,         \* handler configuration
           ENRS, WAYSEQS, HSSIGS, HSRECS, MSGSEL,   \* variant restrictions (keep exhaustive configurations focused)
           DEPTH
 
-VARIABLES h, env, bud, hist, last, subm, outc, proved, xreq
-vars == <<h, env, bud, hist, last, subm, outc, proved, xreq>>
+VARIABLES h, env, bud, hist, last, subm, outc, proved, xreq, rot
+vars == <<h, env, bud, hist, last, subm, outc, proved, xreq, rot>>
 
 BudTiny  == [way |-> 1, way2 |-> 1, rand |-> 1, hs |-> 1, badhs |-> 1, msg |-> 1, dup |-> 0, lose |-> 0, adv |-> 2, age |-> 0, app |-> 1, atk |-> 0]
 BudInit  == [way |-> 2, way2 |-> 1, rand |-> 0, hs |-> 0, badhs |-> 0, msg |-> 2, dup |-> 0, lose |-> 0, adv |-> 2, age |-> 0, app |-> 2, atk |-> 0]
@@ -25,8 +25,8 @@ BudSim   == [way |-> 4, way2 |-> 2, rand |-> 3, hs |-> 4, badhs |-> 2, msg |-> 8
 
 Reset == [k |-> "Reset", retries |-> RETRIES, cap |-> CAP, sess_ttl |-> TTL]
 Init == /\ h = HInit(RETRIES, CAP, TTL) /\ env = EInit /\ bud = BUD
-        /\ hist = <<Reset>> /\ last = [in |-> Reset, rin |-> [k |-> "Nop"], hadSess |-> FALSE, hadPend |-> FALSE, pendRids |-> {}]
-        /\ subm = {} /\ outc = [r \in RIDS |-> 0] /\ proved = {} /\ xreq = {}
+        /\ hist = <<Reset>> /\ last = [in |-> Reset, rin |-> [k |-> "Nop"], hadSess |-> FALSE, hadPend |-> FALSE, pendRids |-> {}, wayHs |-> FALSE]
+        /\ subm = {} /\ outc = [r \in RIDS |-> 0] /\ proved = {} /\ xreq = {} /\ rot = {}
 
 Parties == PEERS \cup (IF ATTACKER THEN {"A"} ELSE {})
 Use(b, f) == [b EXCEPT ![f] = @ - 1]
@@ -97,11 +97,13 @@ Do(kind, in) ==
         /\ h' = h2
         /\ env' = EnvOut(e1, in, h2)
         /\ last' = [in |-> in, rin |-> rin, hadSess |-> rin.k = "hs" /\ HasSess(h, Addr(rin.src, rin.from)), hadPend |-> rin.k = "hs" /\ \E i \in 1..Len(h.pend) : h.pend[i].addr = Addr(rin.src, rin.from) /\ ~h.pend[i].int,
-                        pendRids |-> {h.pend[i].rid : i \in 1..Len(h.pend)}]
+                        pendRids |-> {h.pend[i].rid : i \in 1..Len(h.pend)},
+                        wayHs |-> rin.k = "way" /\ \E i \in 1..Len(h.active) : h.active[i].n = rin.echo /\ h.active[i].hs /\ h.active[i].kind = "msg" /\ h.active[i].addr.sock = rin.from]
         /\ hist' = Append(hist, in)
         /\ subm' = IF in.k = "AppRequest" THEN subm \cup {in.rid} ELSE subm
         /\ outc' = [r \in RIDS |-> outc[r] + Terminal(h2, r)]
         /\ proved' = proved \cup ProvedBy(rin, h, h2)
+        /\ rot' = rot \cup (IF rin.k = "msg" /\ SessIdx(h, Addr(rin.src, rin.from)) # 0 /\ rin.key # "none" /\ Sess(h, Addr(rin.src, rin.from)).old = rin.key THEN {rin.key} ELSE {})
         /\ xreq' = (xreq \cup {[id |-> h2.ev[i].id, addr |-> h2.ev[i].addr, rid |-> h2.ev[i].rid] : i \in {i \in 1..Len(h2.ev) : h2.ev[i].e = "Request"}})
                    \ (IF in.k = "AppResponse" THEN {[id |-> in.peer, addr |-> in.addr, rid |-> in.xid]} ELSE {})
 
@@ -119,7 +121,7 @@ RankSq(hh, x) == Cardinality({y \in AllSq(hh) : y < x})
 NormH(hh) == [hh EXCEPT !.tx = <<>>, !.ev = <<>>, !.stepno = 0, !.sq = 0, !.now = 0,
                         !.active = [i \in 1..Len(hh.active) |-> [hh.active[i] EXCEPT !.dl = @ - hh.now, !.sq = RankSq(hh, @)]],
                         !.chal = [i \in 1..Len(hh.chal) |-> [hh.chal[i] EXCEPT !.dl = @ - hh.now, !.sq = RankSq(hh, @)]]]
-View == <<NormH(h), env, bud, subm, outc, proved, xreq>>
+View == <<NormH(h), env, bud, subm, outc, proved, xreq, rot>>
 
 \* ================================================================== design-level properties
 \* C13: the number of exemptions of a socket = outstanding requests to it + outstanding challenges to it
@@ -168,6 +170,24 @@ GoalBaseResponder == ~(last.in.k = "PeerMessage" /\ Delivered("Request") /\ \E i
 GoalBaseInitiator == ~(last.in.k = "PeerMessage" /\ Delivered("Response") /\ \E i \in 1..Len(hist) : hist[i].k = "PeerWhoAreYou")
 GoalBaseRekeyed   == ~(last.in.k = "PeerMessage" /\ (Delivered("Response") \/ Delivered("Request")) /\ \E i \in 1..Len(h.sessq) : h.sessq[i].old # "none")
 GoalBaseAwaiting  == ~(last.in.k = "PeerMessage" /\ Delivered("Request") /\ \E i \in 1..Len(h.sessq) : h.sessq[i].aw # "none")
+GoalBaseResponderRec == ~(last.in.k = "PeerMessage" /\ Delivered("Request") /\ \E i \in 1..Len(hist) : hist[i].k = "PeerHandshake" /\ hist[i].rec # "none" /\ hist[i].sig = "own")
+\* a rejected (badly signed) handshake, then the genuine one, while a request to the same socket is outstanding
+GoalBadThenGoodHs == ~(last.rin.k = "hs" /\ last.rin.signer # "bad" /\ Delivered("Established")
+                       /\ (\E i \in 1..Len(hist) - 1 : hist[i].k = "PeerHandshake" /\ hist[i].sig = "bad" /\ hist[i].from = last.rin.from /\ hist[i].chal = last.rin.chal)
+                       /\ \E i \in 1..Len(h.active) : h.active[i].addr.sock = last.rin.from)
+\* a WHOAREYOU for a request that was already answered with a handshake and has since been re-encrypted under new keys
+GoalWayAfterReplay == ~(last.rin.k = "way" /\ last.wayHs)
+\* the node sends a new message under keys it had rotated back to (the peer kept using the older keys)
+\* (the message counter restarts when a session is re-keyed: a collision needs more messages under the older keys before
+\*  the re-key than messages sent since)
+FirstUnder(k) == LET S == {j \in 1..Len(env.seen) : env.seen[j].key = k} IN IF S = {} THEN 0 ELSE CHOOSE j \in S : \A x \in S : j <= x
+GoalSendAfterRotateBack == ~(\E i \in 1..Len(h.tx) : h.tx[i].kind = "msg" /\ ~h.tx[i].re /\ h.tx[i].key \in rot
+                               /\ \E a \in {h.sessq[x].addr : x \in 1..Len(h.sessq)} :
+                                     /\ Sess(h, a).cur = h.tx[i].key /\ Sess(h, a).old # "none" /\ FirstUnder(Sess(h, a).old) # 0
+                                     /\ LET f == FirstUnder(Sess(h, a).old)
+                                            before == Cardinality({j \in 1..(f - 1) : env.seen[j].kind = "msg" /\ env.seen[j].key = h.tx[i].key})
+                                            since  == Cardinality({j \in (f + 1)..(Len(env.seen) - Len(h.tx)) : env.seen[j].kind = "msg" /\ env.seen[j].to = a.sock})
+                                        IN since + 1 <= before)
 GoalBadSigKeepsChallenge == ~(last.rin.k = "hs" /\ last.rin.signer = "bad" /\ HasChal(h, Addr(last.rin.src, last.rin.from)))
 GoalReplayedHs  == ~(last.in.k = "Replay" /\ last.rin.k = "hs" /\ Len(h.sessq) >= 1)
 =============================================================================
